@@ -58,6 +58,8 @@ VARIANTS = {
     "tsan": ("clang", "-O1 -g -fsanitize=thread -DZSTD_MULTITHREAD -DZSTD_LEGACY_SUPPORT=0 -D" + GUARD),
     "ocf": ("gcc", "-O2 -g -DZSTD_MULTITHREAD -DZSTD_LEGACY_SUPPORT=0 -DZSTD_WINDOW_OVERFLOW_CORRECT_FREQUENTLY=1 -D" + GUARD),
     "ocfsan": ("clang", "-O1 -g " + SAN + " -DDEBUGLEVEL=1 -DZSTD_MULTITHREAD -DZSTD_LEGACY_SUPPORT=0 -DZSTD_WINDOW_OVERFLOW_CORRECT_FREQUENTLY=1 -D" + GUARD),
+    # MemorySanitizer: reads of uninitialised memory (behaviour that depends on what the heap held before)
+    "msan": ("clang", "-O1 -g -fsanitize=memory -fsanitize-memory-track-origins=2 -fno-omit-frame-pointer -DZSTD_MULTITHREAD -DZSTD_LEGACY_SUPPORT=5 -DZSTD_DISABLE_ASM -D" + GUARD),
     # decode-path variants (C04)
     "v_x1": ("clang", "-O1 -g " + SAN + " -DHUF_FORCE_DECOMPRESS_X1 -DZSTD_LEGACY_SUPPORT=0"),
     "v_x2": ("clang", "-O1 -g " + SAN + " -DHUF_FORCE_DECOMPRESS_X2 -DZSTD_LEGACY_SUPPORT=0"),
